@@ -239,6 +239,31 @@ def tolerance_nonnegative(ctx):
                and 'tol' in unparse(s.test)]
         ok_ = bool(chk) and t(chk[0].test) == T.term(ast.parse('tol < 0 or rel < 0', mode='eval').body)
         ctx.check(ok_, name + '#nonneg', 'rejects tol < 0 or rel < 0', '%s no longer rejects negative tolerances' % name, g, chk[0] if chk else g.node)
+    epsilon_keys(ctx)
+
+
+def epsilon_keys(ctx):
+    """generate_solvers and generate_conditions read the strictness tolerances from the caller's locals under their own names:
+    locals['tol'] is the caller's 'tol' (default 1e-15) and locals['rel'] the caller's 'rel' (default 1e-15) - the constraint
+    and the penalty built from one text with one locals dict then use the same margin (shared by C13.e and C14.e)"""
+    for name in ('generate_solvers', 'generate_conditions'):
+        g = ctx.func('%s:%s' % (SY, name))
+        lp = 'locals'
+        L = ('name', lp)
+        found = {}
+        for st in g.node.body:
+            if isinstance(st, ast.Assign):
+                for tg in st.targets:
+                    if isinstance(tg, ast.Subscript) and isinstance(tg.value, ast.Name) and tg.value.id == lp and isinstance(tg.slice, ast.Constant):
+                        found[tg.slice.value] = (st, T.simp(T.term(st.value)), [x.id for x in st.targets if isinstance(x, ast.Name)])
+        for key in ('tol', 'rel'):
+            ctx.need(key in found, '%s no longer stores locals[%r]' % (name, key))
+            st, v, names = found[key]
+            want = ('ifexp', ('cmp', 'in', ('const', key), L), ('sub', L, ('const', key)), T.simp(T.term(ast.parse('1e-15', mode='eval').body)))
+            ctx.stats['terms_compared'] += 1
+            ctx.check(v == want and names in ([], [key]), '%s#%s' % (name, key), "locals[%r] = the caller's %r, default 1e-15 (bound to the local `%s`)" % (key, key, key),
+                      '%s takes its %r from %s (bound to %s): the strictness margin of the generated function is not the one the caller gave under %r'
+                      % (name, key, T.show(v)[:80], names, key), g, st)
 
 
 @rule('C13.f', min_instances=1)
